@@ -153,7 +153,8 @@ class YowProtocolLayer(YowLayer):
         self.toLower(iqEntity.toProtocolTreeNode())
 
     def processIqRegistry(self, protocolTreeNode):
-        if protocolTreeNode.tag == "iq":
+        # only a result or an error is an answer: a request of the server's own (a ping) may carry the id of a pending request
+        if protocolTreeNode.tag == "iq" and protocolTreeNode["type"] in ("result", "error"):
             iq_id = protocolTreeNode["id"]
             if iq_id in self.iqRegistry:
                 originalIq, successClbk, errorClbk = self.iqRegistry[iq_id]
